@@ -17,7 +17,7 @@ from concurrent.futures import ThreadPoolExecutor
 
 VERIF = os.path.dirname(os.path.dirname(os.path.abspath(__file__)))
 REPO = os.environ.get("PSV_REPO", "/repo")
-PSX = os.path.join(VERIF, "bin", "psx")
+PSX = os.environ.get("PSV_PSX") or os.path.join(VERIF, "bin", "psx")
 
 
 class AnalysisBroken(Exception):
